@@ -712,6 +712,8 @@ def check_operator(ctx, rep):
 
 
 def run(ctx, rep):
+    from sa import callbind
+    callbind.run_for(ctx, rep, 'C16', 13)
     rep.explanation = (
         "Abstract execution of LeapfrogIntegrator.__call__ (loop unrolled for 1, 2 and 3 steps) in the domain of linear forms over "
         "q0, p0 and the gradients g_k at the successive evaluation points, with coefficients polynomial in the step size and M⁻¹; "
